@@ -1,8 +1,9 @@
 (** * C07 correspondence cases and monitors: a failed canary is rolled back to the active version. *)
 From EDS Require Import Model.Objects Model.Fitness Model.PodSpec Model.Default Model.Canary Model.ErsReconcile
-     Model.EdsLogic Model.EdsReconcile Check.World Check.C08Check Proofs.Lists.
+     Model.EdsLogic Model.EdsReconcile Check.World Check.C08Check Check.C02Check Proofs.Lists.
 
-Definition case := World.case.
+(** a reconcile step of a store or history, or the store at the end of a fair tail (see [C02Check]) *)
+Definition case := C02Check.case.
 
 Definition mon_eds (sn : eds_snapshot) (obs : eds_obs) : list N :=
   match es_obj sn with
@@ -51,7 +52,12 @@ Definition mon_eds (sn : eds_snapshot) (obs : eds_obs) : list N :=
 
 Definition chk (c : case) : list N :=
   match c with
-  | CErs sn obs => code_if (step_ok_ers sn obs) 1 ++ mon_failed_sticky sn obs 16
-  | CEds sn obs => code_if (step_ok_eds sn obs) 1 ++ mon_eds sn obs
+  | W (CErs sn obs) => code_if (step_ok_ers sn obs) 1 ++ mon_failed_sticky sn obs 16
+  | W (CEds sn obs) => code_if (step_ok_eds sn obs) 1 ++ mon_eds sn obs
+  | Final e rss nodes pods silent _ _ =>
+      (* "subsequently replaces the canary pods by pods of the active template on the former canary nodes": at rest after
+         a rollback (a later canary may be running elsewhere) every eligible node outside status.canary.nodes runs one
+         Ready pod of the active template, and nothing else remains *)
+      match mon_final e rss nodes pods with [] => [] | _ => [17%N] end
   end.
 Definition run (cs : list case) : list (N * N) := run_cases chk 0%N cs.
